@@ -109,13 +109,15 @@ add_parsed_row(kdump_ctx_t *ctx, struct attr_data *dir,
 }
 
 static kdump_status
+parsed_line_hook(kdump_ctx_t *ctx, struct attr_data *lineattr,
+		 struct attr_data *dir, char *key);
+
+static kdump_status
 lines_post_hook(kdump_ctx_t *ctx, struct attr_data *lineattr)
 {
-	char *key, *type, *sym, *p;
+	char *key, *p;
 	size_t keylen;
-	unsigned long long num;
-	struct attr_template tmpl;
-	struct attr_data *dir, *attr;
+	struct attr_data *attr;
 	kdump_status res;
 
 	ctx->xlat->dirty = true;
@@ -128,7 +130,12 @@ lines_post_hook(kdump_ctx_t *ctx, struct attr_data *lineattr)
 		attr = attr->parent;
 	}
 
-	key = alloca(keylen);
+	/* The key length is controlled by the dump file:
+	 * do not put the copy on the stack.
+	 */
+	key = ctx_malloc(keylen, ctx, "VMCOREINFO key");
+	if (!key)
+		return KDUMP_ERR_SYSTEM;
 	attr = lineattr;
 	p = key + keylen - 1;
 	*p = '\0';
@@ -140,7 +147,21 @@ lines_post_hook(kdump_ctx_t *ctx, struct attr_data *lineattr)
 		if (p > key)
 			*--p = '.';
 	}
-	dir = attr->parent;
+
+	res = parsed_line_hook(ctx, lineattr, attr->parent, key);
+	free(key);
+	return res;
+}
+
+static kdump_status
+parsed_line_hook(kdump_ctx_t *ctx, struct attr_data *lineattr,
+		 struct attr_data *dir, char *key)
+{
+	char *type, *sym, *p;
+	unsigned long long num;
+	struct attr_template tmpl;
+	struct attr_data *attr;
+	kdump_status res;
 
 	if (dir == gattr(ctx, GKI_dir_linux_vmcoreinfo)) {
 		if (!strcmp(key, "PAGESIZE")) {
